@@ -19,7 +19,7 @@ RULE = (
     "neighbour list) increases; dft_recursive's output obeys the pre-order rule (next vertex = first unlisted "
     "in-universe neighbour of the deepest path vertex that has one).  Determinism: repeating the call (also, with neighbor caching on, after calls with other short-lived filter callables) and "
     "rebuilding the description on fresh objects after unrelated allocations give the same index sequence.  "
-    "Universes are optionally padded with 40 / 1000 isolated members, and every case is evaluated again on the same objects after a membership swap.  Non-trivial = some expanded vertex had >= 2 not-yet-listed neighbours (a real choice) and the three orders "
+    "Universes are optionally padded with 40 / 1000 isolated members, and every case is evaluated again on the same objects after a membership swap.  A deep family (spines of 1300-4000 vertices with a leaf per vertex, i.e. deeper than the recursion limit) requires canonical orders from bft and dft_iterative and forbids a non-canonical answer from dft_recursive (RecursionError = no answer is tolerated).  Non-trivial = some expanded vertex had >= 2 not-yet-listed neighbours (a real choice) and the three orders "
     "are not all equal; distinct = distinct case value."
 )
 ASSUMPTIONS = [
@@ -59,7 +59,14 @@ def enumerate_cases(tier, shard=0, nshards=1):
             yield {"g": {"nv": 4, "vcls": None, "edges": [[cls, a, b] for a, b in shape], "reassign": []}, "uni": [0, 1, 2, 3],
                    "start": 0, "d": d, "u": 1, "via": None, "res": None, "cache": False, "pad": 1000, "swap": None, "take": 0}
 
-    return gen(), f"{len(cfgs)} diamond-like graphs (3-4 of 7 candidate links over 4 vertices, directed / undirected, FORWARD / ANY) in universes padded to 1004 members"
+    deep = [{"deep": {"spine": n, "leaf_first": lf, "cls": cls, "back": back}} for n in ((1300, 2500) if tier == "quick" else (1300, 2500, 4000))
+            for lf in (True, False) for cls in (0, 1) for back in (False, True)]
+
+    def gen_all():
+        yield from gen()
+        yield from sharded(deep, shard, nshards)
+
+    return gen_all(), f"{len(deep)} deep graphs (a spine of 1300-4000 vertices, deeper than the recursion limit, with a leaf at every spine vertex, attached before or after the spine edge) + {len(cfgs)} diamond-like graphs (3-4 of 7 candidate links over 4 vertices, directed / undirected, FORWARD / ANY) in universes padded to 1004 members"
 
 
 def _distances(N, s):
@@ -76,7 +83,71 @@ def _distances(N, s):
     return dist
 
 
+def check_deep(spec):
+    """
+    A graph much deeper than the recursion limit.  bft and dft_iterative must list it in canonical order;
+    dft_recursive may raise RecursionError (no answer) but must not return a NON-canonical order.
+    """
+    from edgegraph.structure import Universe
+    from edgegraph.traversal import breadthfirst as B
+    from edgegraph.traversal import depthfirst as D
+    from eglib import classes as C
+    from eglib import graphs
+    from eglib.model import ref_bfs, ref_dfs_pre_iter, ref_dfs_stack
+
+    n, E = spec["spine"], C.LINK_CLASSES[spec["cls"]]
+    spine = [C.Vertex(attributes={"i": i}) for i in range(n)]
+    leaves = [C.Vertex(attributes={"i": n + i}) for i in range(n)]
+    ls = []
+    for i in range(n):
+        if spec["leaf_first"]:
+            ls.append(E(spine[i], leaves[i]))
+        if i + 1 < n:
+            ls.append(E(spine[i], spine[i + 1]))
+        if not spec["leaf_first"]:
+            ls.append(E(spine[i], leaves[i]))
+        if spec["back"] and i >= 2:
+            ls.append(E(spine[i], spine[i - 2]))
+    vs = spine + leaves
+    G = graphs.abstract(vs, ls)
+    vi = {id(v): k for k, v in enumerate(vs)}
+    uni = Universe(vertices=vs)
+    for name, fn, ref in (("bft", B.bft, ref_bfs), ("dft_iterative", D.dft_iterative, ref_dfs_stack), ("dft_recursive", D.dft_recursive, ref_dfs_pre_iter)):
+        if name == "bft":
+            # ref_bfs is quadratic (list membership): use the equivalent level order computed with a set
+            seen, exp, q = {0}, [0], 0
+            while q < len(exp):
+                for w in ref_neighbors(G, exp[q], 0, 1, None):
+                    if w not in seen:
+                        seen.add(w)
+                        exp.append(w)
+                q += 1
+        elif name == "dft_iterative":
+            seen, exp, st_ = set(), [], [0]
+            while st_:
+                x = st_.pop()
+                if x in seen:
+                    continue
+                seen.add(x)
+                exp.append(x)
+                st_.extend(ref_neighbors(G, x, 0, 1, None))
+        else:
+            exp = ref(G, 0, None, 0, 1, None)
+        try:
+            got = [vi[id(x)] for x in fn(None, spine[0], unknown_handling=1)]
+        except RecursionError:
+            if name == "dft_recursive":
+                continue           # no answer is acceptable for the recursive form
+            raise Violation("RecursionError", f"{name} on a graph of depth {n}")
+        if got != exp:
+            k = next(i for i, (a, b) in enumerate(zip(got + [None], exp + [None])) if a != b)
+            raise Violation(f"{name}-order", f"deep graph (spine {n}, leaf_first={spec['leaf_first']}, back={spec['back']}): first difference at position {k}: got {got[k:k + 4]}, canonical {exp[k:k + 4]}")
+    return dict(nt=True, classes=["deep-graph"])
+
+
 def check_case(case):
+    if "deep" in case:
+        return check_deep(case["deep"])
     with trav.caching(case.get("cache")):
         return _check_case(case)
 
